@@ -1,5 +1,5 @@
 SPECIFICATION Spec
-CONSTANTS BitSpace = 4 Honest = TRUE Window = 1 MaxRounds = 2 MaxGen = 1 MaxHon = 0 MaxDup = 0 CreditBy = "hash" Reset = FALSE
+CONSTANTS BitSpace = 4 Honest = TRUE Window = 1 MaxRounds = 2 MaxHon = 0 MaxDup = 0 CreditBy = "hash"
 INVARIANT TypeOK
 INVARIANT SubProfile
 INVARIANT AggIsAnswers
